@@ -25,6 +25,11 @@ func main() {
 		if err != nil {
 			os.Exit(2)
 		}
+		n, err = checks.SelfTestF32(c)
+		fmt.Println("f32 rows:", n, "err:", err)
+		if err != nil {
+			os.Exit(2)
+		}
 	case "check":
 		if len(os.Args) < 3 {
 			os.Exit(2)
